@@ -10,7 +10,10 @@ leave open:
   R2  with `allow_fallback` unset and an optional lookup, a wrap `[provide]` entry still designates the
       fallback when its subproject is already part of the build;
   R3  names are tried in order: for each an override first, then (unless fallback is forced) a
-      dependency remembered from an earlier run.
+      dependency remembered from an earlier run;
+  R5  `World.cache` is what of the persistent cache may be reused in the present configuration: a cached
+      result is reused only while the search path that produced it is unchanged (`Cache.Reusable`;
+      `cache_hit_sound`, `cache_reused_iff_path_unchanged` in Props/C10).
 Core Lean only (the driver runs it next to the Python table `c10_dep.Policy`).
 -/
 namespace MesonModel.DepPolicy
